@@ -15,7 +15,8 @@ RULE = ("cases = seeded gRPC service configs (several entries, entries naming se
         "(jitter pinned to its upper bound) and the outcome with a reference computed from the entry; distinct = distinct (entry "
         "kind, fault sequence shape, client kind, override) that held")
 ASSUMPTIONS = ["google.api_core.retry's clock and random are replaced by a virtual clock / upper-bound jitter",
-               "over REST only the deadline is judged (the timeout handed to the HTTP session on a clean call); retries over REST are not (HTTP status mapping is api-core's)", "maxAttempts is not part of the statement"]
+               "over REST only the deadline is judged (the timeout handed to the HTTP session on a clean call); retries over REST are not (HTTP status mapping is api-core's)", "maxAttempts is not part of the statement",
+               "request-streaming methods are judged through the sync client only (asyncio: one attempt whatever the default; the stream call objects of grpc.aio surface errors outside AsyncRetry)"]
 CASE_TIMEOUT = 600
 PARALLEL = 12
 
@@ -24,7 +25,7 @@ def floors(tier):
     k = 1 if tier == "quick" else 7
     return {"calls_judged": 3000 * k, "single_code_injections": 2000 * k, "retried_calls": 300 * k, "sleeps_compared": 600 * k,
             "deadlines_compared": 2500 * k, "retry_error_by_deadline": 20 * k, "unnamed_method_calls": 800 * k, "override_calls": 200 * k,
-            "client:aio": 1200 * k, "retry_only_entry_failing_for_minutes": 4 * k, "second_page_fault_calls": 40 * k, "rest_calls_judged": 150 * k, "rest_deadlines_compared": 40 * k, "sub_package_cases": 2 if tier == "quick" else 8}
+            "client:aio": 1200 * k, "retry_only_entry_failing_for_minutes": 4 * k, "second_page_fault_calls": 40 * k, "rest_calls_judged": 150 * k, "rest_deadlines_compared": 40 * k, "sub_package_cases": 2 if tier == "quick" else 8, "request_streaming_calls": 300 * k}
 
 
 def plan(seed, tier):
@@ -137,25 +138,28 @@ def run_case(case):
                         seqs.append(([code] * k, "minutes-of-retryable-failures"))
                         break
         seqs.append(([], "clean"))
+        # (a request-streaming call through the asyncio client is made once whatever the default says — observed on the unchanged tree
+        # with api-core 2.24, where the awaited stream-unary call object is not re-created by AsyncRetry; not judged, see ASSUMPTIONS)
+        kinds_ = ("grpc",) if refs.arity(m) in ("stream_unary", "stream_stream") else ("grpc", "aio")
         for seq, shape in seqs:
-            for client in ("grpc", "aio"):
+            for client in kinds_:
                 calls.append({"service": s.name, "full_service": fs, "rpc": m.name, "method": rdm.py_method(m.name), "client": client,
-                              "seq": seq, "shape": shape, "override": {}, "req_type": m.input_type.lstrip(".")})
+                              "seq": seq, "shape": shape, "override": {}, "req_type": m.input_type.lstrip("."), "arity": refs.arity(m)})
         # explicit overrides win
         c0 = rng.choice(sorted(R)) if R else "UNAVAILABLE"
         for ov in ({"timeout": rng.choice([300.0, 150.0])}, {"retry": "none"}, {"retry": "custom", "code": "NOT_FOUND"},
                    {"retry": "custom", "code": "NOT_FOUND", "timeout": 222.0}):
             seq = {"none": [c0], "custom": ["NOT_FOUND", "NOT_FOUND", c0 if c0 != "NOT_FOUND" else "INTERNAL"]}.get(ov.get("retry"), [c0])
-            for client in ("grpc", "aio"):
+            for client in kinds_:
                 calls.append({"service": s.name, "full_service": fs, "rpc": m.name, "method": rdm.py_method(m.name), "client": client,
-                              "seq": seq, "shape": "override", "override": ov, "req_type": m.input_type.lstrip(".")})
+                              "seq": seq, "shape": "override", "override": ov, "req_type": m.input_type.lstrip("."), "arity": refs.arity(m)})
         # REST: the deadline of a call is the `timeout` the stub hands to the HTTP session (default from the entry, or the override)
         rq = model.new(m.input_type)
         if m.name == "List":
             rq.parent = "shelves/s1"
         else:
             rq.name = ("alpha/" if s.name == "Alpha" else "beta/") + rng.choice(["a1", "b2"])
-        for ov in ({}, {"timeout": rng.choice([37.5, 0.75, 410.0])}):
+        for ov in (({}, {"timeout": rng.choice([37.5, 0.75, 410.0])}) if not m.client_streaming else ()):
             calls.append({"service": s.name, "full_service": fs, "rpc": m.name, "method": rdm.py_method(m.name), "client": "rest",
                           "seq": [], "shape": "rest-" + api.info["http_shape"].get(f"{s.name}.{m.name}", "?"), "override": ov,
                           "req_type": m.input_type.lstrip("."), "request": rdm.b64(rq.SerializeToString())})
@@ -203,6 +207,8 @@ def run_case(case):
             bump("second_page_fault_calls")
         if call["shape"] == "single":
             bump("single_code_injections")
+        if call.get("arity") in ("stream_unary", "stream_stream"):
+            bump("request_streaming_calls")
         if not entry:
             bump("unnamed_method_calls")
         if call["override"]:
@@ -368,7 +374,12 @@ def in_runner(script):
         call["_t0"] = __import__("time").monotonic()
         o = {}
         try:
-            ret = getattr(clients[svc], call["method"])(request=lib.mk(call["req_type"], b""), **kwargs_of(call))
+            if call.get("arity") in ("stream_unary", "stream_stream"):
+                ret = getattr(clients[svc], call["method"])(requests=iter([lib.mk(call["req_type"], b"")]), **kwargs_of(call))
+                if call["arity"] == "stream_stream":
+                    list(ret)
+            else:
+                ret = getattr(clients[svc], call["method"])(request=lib.mk(call["req_type"], b""), **kwargs_of(call))
             if call.get("paged"):
                 o["items"] = list(ret)
             o["outcome"] = {"ok": True}
@@ -389,7 +400,22 @@ def in_runner(script):
             call["_t0"] = __import__("time").monotonic()
             o = {}
             try:
-                ret = await getattr(ac[svc], call["method"])(request=lib.mk(call["req_type"], b""), **kwargs_of(call))
+                if call.get("arity") in ("stream_unary", "stream_stream"):
+                    class Requests:             # re-iterable: every attempt of a retried call reads the requests afresh
+                        def __init__(self, item):
+                            self.item = item
+
+                        def __aiter__(self):
+                            async def gen(item=self.item):
+                                yield item
+                            return gen()
+                    ret = getattr(ac[svc], call["method"])(requests=Requests(lib.mk(call["req_type"], b"")), **kwargs_of(call))
+                    ret, _n = await rt.drain_awaitable(ret)
+                    if call["arity"] == "stream_stream":
+                        async for _ in ret:
+                            pass
+                else:
+                    ret = await getattr(ac[svc], call["method"])(request=lib.mk(call["req_type"], b""), **kwargs_of(call))
                 if call.get("paged"):
                     o["items"] = [x async for x in ret]
                 o["outcome"] = {"ok": True}
